@@ -184,7 +184,11 @@ fn offer(target: Target, s: &[u8], incremental: bool, rec: &mut Rec) {
                         let _ = b.proceed();
                     }
                     RecvResponseResult::Redirect(mut r) => {
-                        let _ = r.as_new_flow(ureq_proto::client::flow::RedirectAuthHeaders::SameHost);
+                        let first = r.as_new_flow(ureq_proto::client::flow::RedirectAuthHeaders::SameHost);
+                        if !matches!(first, Ok(Some(_))) {
+                            // declined or refused: asking again, with the other policy, is a call like any other
+                            let _ = r.as_new_flow(ureq_proto::client::flow::RedirectAuthHeaders::Never);
+                        }
                         let _ = r.proceed();
                     }
                     RecvResponseResult::Cleanup(c) => {
